@@ -7,7 +7,7 @@ import ast
 
 from .. import AnalysisError, flow
 from ..fold import is_unknown, RegexVal
-from ..srcmodel import walk_local, norm, dotted, guards, enclosing_stmt, parent, facts_at
+from ..srcmodel import walk_local, norm, dotted, guards, enclosing_stmt, parent, facts_at, literals
 from . import common
 
 META = {
@@ -48,9 +48,11 @@ def check(ctx):
     ctx.attempt(_str_lists)
     ctx.attempt(_unbound_locals)
     ctx.attempt(_staged_optionals)
+    ctx.attempt(_precondition_lengths)
     n = common.discarded_results(ctx, _parser_funcs(ctx))
     if n == 0:
         ctx.ok('DISCARD', 'no validated / converted value is computed and dropped (bare-statement calls to pure functions)')
+    ctx.attempt(common.match_record_roles)
 
 
 def _loop_witness(fi, use, cfg_node):
@@ -76,6 +78,12 @@ def _loop_witness(fi, use, cfg_node):
     if any(use is x for x in ast.walk(loop)):
         return None
     body_ids = {id(x) for st in loop.body for x in ast.walk(st)}
+    # the assignment runs on every pass: it is a top-level statement of the loop body
+    top_defs = [i for i, st in enumerate(loop.body)
+                if isinstance(st, (ast.Assign, ast.AnnAssign, ast.AugAssign)) and any(d is x for d in defs for x in ast.walk(st))]
+    if not top_defs:
+        return None
+    first_def = min(top_defs)
     # helpers defined in the function and called only inside the loop body
     inner = {}
     for n in ast.walk(fi.node):
@@ -104,6 +112,10 @@ def _loop_witness(fi, use, cfg_node):
                 continue
             found = True
             if id(hit) in body_ids:
+                # the fill must come after the assignment within the pass
+                pos = next((i for i, st in enumerate(loop.body) if any(hit is x for x in ast.walk(st))), None)
+                if pos is not None and pos < first_def:
+                    ok = False
                 continue
             holder = hit
             while holder is not None and not isinstance(holder, ast.FunctionDef):
@@ -222,6 +234,53 @@ def _staged_optionals(ctx):
                 ctx.undecided('EXC', construct, f"used in `{norm(par)[:50]}`")
     if not nullable:
         ctx.undecided('EXC', 'staged tract components', 'no None-initialised attribute is staged')
+
+
+def _precondition_lengths(ctx):
+    """A guard clause that checks the length of a sequence (`if len(x) ...:
+    return`) and is followed by x[0] / x[-1] must actually exclude the empty
+    sequence: `if len(x) > 1: return` lets len 0 through to x[0]
+    (IndexError)."""
+    import re as _re
+    from ..srcmodel import _always_exits
+    n = 0
+    for fi in _parser_funcs(ctx):
+        for x in walk_local(fi.node):
+            if not (isinstance(x, ast.Subscript) and isinstance(x.ctx, ast.Load) and isinstance(x.slice, ast.Constant)
+                    and x.slice.value in (0, -1) and isinstance(x.value, (ast.Name, ast.Attribute))):
+                continue
+            base = norm(x.value)
+            st = enclosing_stmt(x)
+            blk = None
+            for fld in ('body', 'orelse', 'finalbody'):
+                b_ = getattr(st._parent, fld, None)
+                if isinstance(b_, list) and st in b_:
+                    blk = b_
+            if blk is None:
+                continue
+            ok_lengths, clause = set(range(0, 5)), None
+            for prev in blk[:blk.index(st)]:
+                if isinstance(prev, ast.If) and not prev.orelse and _always_exits(prev.body):
+                    for _e, t, pol in literals([(prev.test, False)]):
+                        m = _re.match(r"^len\(" + _re.escape(base) + r"\) (==|<|<=|>|>=) (\d+)$", t)
+                        if m:
+                            op, k = m.group(1), int(m.group(2))
+                            f = {'==': lambda v: v == k, '<': lambda v: v < k, '<=': lambda v: v <= k,
+                                 '>': lambda v: v > k, '>=': lambda v: v >= k}[op]
+                            ok_lengths = {v for v in ok_lengths if f(v) == pol}
+                            clause = prev
+                        elif t == base:
+                            ok_lengths = {v for v in ok_lengths if (v > 0) == pol}
+            if clause is None:
+                continue
+            n += 1
+            ctx.check(0 not in ok_lengths, 'EXC', f"{fi.qualname}: the length check before `{norm(x)}` excludes the empty sequence",
+                      f"`if {norm(clause.test)}: ...` leaves lengths {sorted(ok_lengths)}",
+                      f"`if {norm(clause.test)}: return` is the only length check before `{norm(x)}`, and an empty `{base}` passes "
+                      f"it: IndexError when nothing was staged (e.g. sec_within on text whose first pass forms no tract)",
+                      key=f"EXC|{fi.qualname}|precondition|{base}", where=common.loc(fi, x))
+    if n == 0:
+        ctx.ok('EXC', 'no x[0] / x[-1] relies on a length guard clause that admits the empty sequence')
 
 
 def _parser_funcs(ctx):
@@ -415,6 +474,19 @@ def _int_sites(ctx):
             ctx.shape(bool(safe), 'EXC', f"{fi.qualname}: {norm(c)[:40]} takes digits only", str(why),
                       why="neither inside try/except ValueError nor recognisably fed by a digit-only group")
     ctx.floor('int() sites', n, 6)
+    # the premise used above: every number group the unpackers int() is digits only
+    for rn, grps in (('multisec_regex', ('secnum', 'secnum_rightmost')),
+                     ('multilot_regex', ('lotnum', 'lotnum_rightmost')),
+                     ('multilot_with_aliquot_regex', ('lotnum', 'lotnum_rightmost'))):
+        rv = common.regex_by_name(ctx, rn)
+        gf = common.group_facts(ctx, rv)
+        for g in grps:
+            if g not in gf:
+                ctx.undecided('EXC', f"{rn}: group {g} is digits only", 'group not found')
+                continue
+            ctx.check(gf[g].digit_only, 'EXC', f"{rn}: group {g} is digits only (the unpackers int() it)",
+                      detail_bad=f"group {g} of {rn} can match a non-digit: int() in the unpacker raises ValueError for such "
+                                 f"text (e.g. a lettered lot 'Lot 4A')", key=f"EXC|{rn}|{g}|digit-only", where=rv.module)
 
 
 def _raises(ctx):
